@@ -131,6 +131,7 @@ pub fn run(a: &Args) -> Option<Report> {
     match a.leg.as_str() {
         "seq" | "seq-1cpu" | "seq-3cpu" => Some(run_seq(a)),
         "race" | "race-1cpu" => Some(run_race(a)),
+        "clone-race" => Some(run_clone_race(a)),
         "miri" | "tsan" => Some(run_race_small(a)),
         _ => None,
     }
@@ -348,9 +349,163 @@ fn lin_step(s: &(Option<u64>, u64), o: &ROp) -> Option<(Option<u64>, u64)> {
     }
 }
 
+/// clear() (and retain) called while another operation is parked inside its closure, i.e. while it holds a shard lock:
+/// keys created before and not touched since must be gone once clear() has returned, whichever locks were busy.
+fn clear_vs_lock_holder(a: &Args, rep: &mut Report, r: &mut Rng) {
+    use std::sync::mpsc;
+    let trials = a.budget(40, 1600);
+    for _ in 0..trials {
+        let reg: Arc<Reg> = Arc::new(Registry::new(IdStorage::new()));
+        let nkeys = 6 + r.usize(30);
+        let keys: Vec<(u8, Key)> = (0..nkeys).map(|i| ((r.below(3)) as u8, Key::from_name(format!("k{}", i)))).collect();
+        for (kind, k) in &keys {
+            let _ = goc(&reg, *kind, k);
+        }
+        // the parked operation: get_or_create on an existing key (read lock) or on a new key (write lock)
+        let existing = r.chance(1, 2);
+        let (hk, hkey) = if existing { keys[0].clone() } else { (r.below(3) as u8, Key::from_name("fresh")) };
+        let use_retain = r.chance(1, 3);
+        let (inside_tx, inside_rx) = mpsc::channel::<()>();
+        let (go_tx, go_rx) = mpsc::channel::<()>();
+        let rega = reg.clone();
+        let hkey2 = hkey.clone();
+        let holder = std::thread::spawn(move || {
+            let f = |c: &Arc<Cell>| {
+                inside_tx.send(()).ok();
+                let _ = go_rx.recv_timeout(std::time::Duration::from_millis(15));
+                c.id
+            };
+            match hk {
+                0 => rega.get_or_create_counter(&hkey2, f),
+                1 => rega.get_or_create_gauge(&hkey2, f),
+                _ => rega.get_or_create_histogram(&hkey2, f),
+            }
+        });
+        inside_rx.recv().ok();
+        let regb = reg.clone();
+        let clearer = std::thread::spawn(move || {
+            if use_retain {
+                regb.retain_counters(|_, _| false);
+                regb.retain_gauges(|_, _| false);
+                regb.retain_histograms(|_, _| false);
+            } else {
+                regb.clear();
+            }
+            go_tx.send(()).ok();
+        });
+        clearer.join().unwrap();
+        let _ = holder.join().unwrap();
+        // keys with no operation since their creation (everything but the parked one)
+        let survivors: Vec<String> = keys.iter().filter(|(kind, k)| !(existing && *kind == hk && *k == hkey)).filter(|(kind, k)| get(&reg, *kind, k).is_some()).map(|(kind, k)| format!("kind{} {}", kind, k.name())).collect();
+        rep.case(mix(nkeys as u64, (existing as u64) << 8 | (use_retain as u64) << 9 | (hk as u64) << 10), true);
+        if !survivors.is_empty() {
+            rep.violation(
+                "C06:entry-survived-clear",
+                jo! {"what" => "clear()/retain(false) returned, yet keys created before it was called (and not touched since) are still live with their old storage; another operation was parked inside its get_or_create closure (holding a shard lock) at the time",
+                "removed_by" => if use_retain { "retain_*(|_, _| false)" } else { "clear()" }, "parked_operation" => if existing { "get_or_create on an existing key" } else { "get_or_create creating a new key" }, "keys" => nkeys, "survivors" => J::A(survivors.iter().take(8).map(|x| J::s(x.clone())).collect())},
+            );
+        }
+        if rep.want_sample() {
+            rep.sample(jo! {"clear_vs_lock_holder" => true, "keys" => nkeys, "parked_on_existing_key" => existing, "retain" => use_retain});
+        }
+    }
+}
+
+/// A lazily hashed key (what the macros' static call-site keys are) shared by two threads on its first use: one looks
+/// it up directly (first get_hash), the other clones it at that moment and looks the clone up. Both must get the same
+/// storage, and the quiescent listing shows the key once. Spin-synchronised rounds, no hooks: the window is inside
+/// Key::clone / get_hash.
+fn run_clone_race(a: &Args) -> Report {
+    use std::sync::atomic::AtomicUsize;
+    let mut rep = Report::new("C06", &a.leg, a.seed);
+    let rounds = a.budget(400_000, 8_000_000) as usize;
+    let reg: Arc<Reg> = Arc::new(Registry::new(IdStorage::new()));
+    let keys: Arc<Vec<AtomicUsize>> = Arc::new((0..2).map(|_| AtomicUsize::new(0)).collect()); // current round's key pointer, per parity
+    let round = Arc::new(AtomicU64::new(0));
+    let done = Arc::new(AtomicU64::new(0));
+    let mismatch: Arc<Mutex<Vec<(u64, u64, u64, u64)>>> = Arc::new(Mutex::new(Vec::new()));
+    let ids: Arc<Vec<AtomicU64>> = Arc::new((0..2).map(|_| AtomicU64::new(0)).collect());
+    let mut hs = Vec::new();
+    for t in 0..2u64 {
+        let (reg, keys, round, done, ids) = (reg.clone(), keys.clone(), round.clone(), done.clone(), ids.clone());
+        hs.push(std::thread::spawn(move || {
+            let mut k = 1u64;
+            loop {
+                let mut spins = 0u32;
+                loop {
+                    let cur = round.load(Ordering::Acquire);
+                    if cur == u64::MAX {
+                        return;
+                    }
+                    if cur >= k {
+                        break;
+                    }
+                    spins += 1;
+                    if spins % 2048 == 0 {
+                        std::thread::yield_now();
+                    }
+                }
+                let key: &'static Key = unsafe { &*(keys[(k % 2) as usize].load(Ordering::Acquire) as *const Key) };
+                let id = if t == 0 {
+                    reg.get_or_create_counter(key, |c| c.id)
+                } else {
+                    let cl = key.clone();
+                    reg.get_or_create_counter(&cl, |c| c.id)
+                };
+                ids[t as usize].store(id, Ordering::Release);
+                done.fetch_add(1, Ordering::AcqRel);
+                k += 1;
+            }
+        }));
+    }
+    let mut checked = 0u64;
+    for k in 1..=rounds as u64 {
+        // a fresh, never-hashed key with static parts (leaked on purpose: static call-site keys live for ever)
+        let name: &'static str = Box::leak(format!("k{}", k).into_boxed_str());
+        let key: &'static Key = Box::leak(Box::new(if k % 3 == 0 { Key::from_static_name(name) } else { Key::from_static_parts(name, &LBL) }));
+        keys[(k % 2) as usize].store(key as *const Key as usize, Ordering::Release);
+        round.store(k, Ordering::Release);
+        let mut spins = 0u32;
+        while done.load(Ordering::Acquire) < 2 * k {
+            spins += 1;
+            if spins % 2048 == 0 {
+                std::thread::yield_now();
+            }
+        }
+        let (a0, a1) = (ids[0].load(Ordering::Acquire), ids[1].load(Ordering::Acquire));
+        checked += 1;
+        if a0 != a1 {
+            let mut m = mismatch.lock().unwrap();
+            if m.len() < 5 {
+                m.push((k, a0, a1, key.get_hash()));
+            }
+        }
+    }
+    round.store(u64::MAX, Ordering::Release);
+    for h in hs {
+        let _ = h.join();
+    }
+    let (l, hn) = listing(&reg, 0);
+    rep.count("rounds", checked);
+    rep.case(mix(checked, l.len() as u64), true);
+    let m = mismatch.lock().unwrap();
+    if !m.is_empty() {
+        rep.violation("C06:second-storage-for-live-key:clone-during-first-hash", jo! {"what" => "a key and a clone of it taken while another thread hashed the key for the first time were given different storages by get_or_create_counter", "rounds" => checked,
+        "examples" => J::A(m.iter().map(|(k, a0, a1, h)| J::s(format!("round {}: storage {} vs {} (key hash {:#x})", k, a0, a1, h))).collect())});
+    }
+    if l.len() as u64 != checked || hn != l.len() {
+        rep.violation("C06:duplicate-entry-for-key", jo! {"what" => "quiescent listing does not show each key exactly once", "keys" => checked, "entries" => l.len(), "handles" => hn});
+    }
+    rep.sample(jo! {"clone_race_rounds" => checked, "entries_at_quiescence" => l.len()});
+    rep
+}
+
+static LBL: [metrics::Label; 1] = [metrics::Label::from_static_parts("svc", "a")];
+
 fn run_race(a: &Args) -> Report {
     let mut rep = Report::new("C06", &a.leg, a.seed);
     let mut r = Rng::new(a.shard_seed());
+    clear_vs_lock_holder(a, &mut rep, &mut r);
     let trials = a.budget(3000, 300_000);
     let mut sigs = std::collections::HashSet::new();
     let mut windows = 0u64;
